@@ -96,6 +96,9 @@ func check(c *reqcase.Case, rq *reqcase.ReqSpec, ob reqcase.Obs) (string, bool) 
 	}
 	var recs []reqcase.Record
 	for _, r := range ob.Records {
+		if r.Drift != "" {
+			return fmt.Sprintf("request %s payload %s script %s: handler %s: %s", rq.Subject, rq.Payload, rq.Script, r.Marker, r.Drift), true
+		}
 		if !r.ForValue {
 			recs = append(recs, r)
 		}
